@@ -77,6 +77,57 @@ def ask(loop, sess, sql):
         return ("Err", type(e).__name__)
 
 
+def living_schema():
+    import asyncio
+    M = {"shop": {"items": {"id": "INT", "name": "TEXT"}, "orders": {"id": "INT"}}, "lab": {"runs": {"n": "INT"}}}
+
+    class Engine(impl.Session):
+        async def schema(self):
+            return M          # the same object on every call
+
+        async def query(self, e, sql, attrs):
+            return [], ["x"]
+
+    loop = asyncio.new_event_loop()
+    n = 0
+    try:
+        sess = Engine()
+        sess.database = "shop"
+        builtin_dbs = {"information_schema", "mysql"}
+
+        def verify(after):
+            nonlocal n
+            checks = [("SHOW TABLES", sorted(M.get("shop", {}))), ("SHOW TABLES FROM lab", sorted(M.get("lab", {}))),
+                      ("SHOW DATABASES", sorted(set(M) | builtin_dbs | {""})),
+                      ("SELECT table_name FROM information_schema.tables WHERE table_schema = 'shop'", sorted(M.get("shop", {})))]
+            for t in sorted(M.get("shop", {})):
+                checks.append((f"SHOW COLUMNS FROM {t}", list(M["shop"][t])))
+                checks.append((f"DESCRIBE {t}", list(M["shop"][t])))
+            for sql, want in checks:
+                got = ask(loop, sess, sql)
+                n += 1
+                names = [r[0] for r in got[1]] if got[0] == "Ok" else got
+                cmp = names if sql.startswith(("SHOW COLUMNS", "DESCRIBE")) else (sorted(set(names) - ({""} if "" not in want else set())) if isinstance(names, list) else names)
+                if cmp != want and not (sql == "SHOW DATABASES" and isinstance(names, list) and sorted(set(names) | {""}) == want):
+                    return dict(after=after, sql=sql, declared_now=want, answered=names)
+            return None
+
+        steps = [("the first catalog queries", lambda: None),
+                 ("CREATE TABLE customers (in place)", lambda: M["shop"].__setitem__("customers", {"name": "TEXT"})),
+                 ("ALTER TABLE orders ADD COLUMN total", lambda: M["shop"]["orders"].__setitem__("total", "DOUBLE")),
+                 ("DROP TABLE items", lambda: M["shop"].pop("items")),
+                 ("CREATE DATABASE hr", lambda: M.__setitem__("hr", {"staff": {"id": "INT"}})),
+                 ("ALTER TABLE orders DROP COLUMN id", lambda: M["shop"]["orders"].pop("id"))]
+        for label, change in steps:
+            change()
+            w = verify(label)
+            if w:
+                return w, n
+        return None, n
+    finally:
+        loop.close()
+
+
 def run(ctx: core.Ctx):
     rng = ctx.rng
     HEADER = header()
@@ -280,6 +331,13 @@ def run(ctx: core.Ctx):
         ctx.evals += 3
     finally:
         env.close()
+
+    # ---- an application that keeps ONE long-lived mapping, returns it from schema() every time and changes it in place (an
+    #      in-memory engine applying DDL): every catalog answer mirrors the mapping as it is NOW, on the same connection
+    mw = living_schema()
+    ctx.evals += mw[1]
+    if mw[0] and witness is None:
+        witness = dict(kind="catalog-after-in-place-change", **mw[0])
 
     # the packet itself byte for byte against Model/Packets.v and through its reference decoder
     import packets_corr
